@@ -354,19 +354,30 @@ class UCSReplication(MessagePassingComputation):
         # and re-registering them, every time.
         if not self._replication_computations_cache:
 
+            neighbors = set()
+            complete = True
             # Find agents hosting the neighbor computations of our computations
             for c_def, _ in self.computations.values():
                 for neighbor_name in c_def.node.neighbors:
                     if neighbor_name in self.computations:
                         continue
-                    agt = self.discovery.computation_agent(neighbor_name)
-                    self._replication_computations_cache.add((agt, self.route(agt)))
+                    try:
+                        agt = self.discovery.computation_agent(neighbor_name)
+                    except UnknownComputation:
+                        # The lookup for the agent hosting this neighbor is
+                        # still in progress (a request from another agent
+                        # may reach us very early): it cannot be used as a
+                        # path target yet, do not cache this partial result.
+                        complete = False
+                        continue
+                    neighbors.add((agt, self.route(agt)))
                     rep_comp = replication_computation_name(agt)
                     self.discovery.register_computation(rep_comp, agt, publish=False)
             if self.logger.isEnabledFor(logging.DEBUG):
-                self.logger.debug(
-                    f"Potential path target: {self._replication_computations_cache}"
-                )
+                self.logger.debug(f"Potential path target: {neighbors}")
+            if not complete:
+                return neighbors
+            self._replication_computations_cache = neighbors
 
         return self._replication_computations_cache
 
